@@ -299,7 +299,7 @@ Fixpoint wp_targets (ts : list target) (rs : list value) (st : store) (K : store
       match get st a, v with
       | Ar (A2 dt n c d), Ar (A1 _ col) =>
           0 <= j < c /\ zlen col = n /\
-          wp_targets r w (set st a (Ar (A2 dt n c (set_col n c j d (map (coerce dt) col))))) K
+          wp_targets r w (set st a (Ar (A2 dt n c (set_col n c j d (coerce_cells dt col))))) K
       | _, _ => False
       end
   | _ :: _, [] => False
@@ -379,7 +379,7 @@ Fixpoint wp (c : stmt) (Q : post) (st : store) {struct c} : Prop :=
   | SCmpArr x op b e =>
       match get st b with
       | Ar r => esafe e st /\
-                normal Q (set st x (Ar (A1 DBool (map (fun c => VBool (eval_cmp op c (evalv e st))) (adata r)))))
+                normal Q (set st x (Ar (A1 DBool (cmp_cells op (evalv e st) (adata r)))))
       | _ => False
       end
   | SArgsort x b =>
@@ -399,7 +399,7 @@ Fixpoint wp (c : stmt) (Q : post) (st : store) {struct c} : Prop :=
       match get st a, get st b with
       | Ar ra, Ar rb =>
           alen ra = alen rb /\ acols ra = acols rb /\
-          let d := map2 (fun p q => VFlt (fdiv (to_flt p) (to_flt q))) (adata ra) (adata rb) in
+          let d := div_cells (adata ra) (adata rb) in
           normal Q (set st x (Ar (match ra with A1 _ _ => A1 DFlt d | A2 _ r c _ => A2 DFlt r c d end)))
       | _, _ => False
       end
@@ -407,7 +407,7 @@ Fixpoint wp (c : stmt) (Q : post) (st : store) {struct c} : Prop :=
       match get st a with
       | Ar ra =>
           esafe e st /\
-          let d := map (fun p => VFlt (fdiv (to_flt p) (to_flt (evalv e st)))) (adata ra) in
+          let d := div_cells_sc (evalv e st) (adata ra) in
           normal Q (set st x (Ar (match ra with A1 _ _ => A1 DFlt d | A2 _ r c _ => A2 DFlt r c d end)))
       | _ => False
       end
